@@ -190,6 +190,7 @@ structure Cfg where
   replayOrderPreserved : Bool  -- wave 4: the restored log lists the steps in execution order (see `readLog`)
   loadReadsCommitted : Bool    -- wave 6: a load reads the committed state file, never the temporary file (see `readT`)
   saveOnEveryEnding : Bool     -- wave 8: a stepping request is followed by the write of the instance however it ends (see `stepCE`)
+  savedEqualsLive : Bool       -- wave 9: what is externalised after a stepping request is the live session, entry by entry (see `externalise`)
   loadSkipsUnusable : Bool     -- wave 7: a state file that parses but holds no session state is skipped like an unreadable one
                                -- (proposed repair `C20-load-skips-unusable-state`; not part of `good`, see `NoStartupFailureOnJunk`)
 deriving DecidableEq, Repr
@@ -198,7 +199,7 @@ deriving DecidableEq, Repr
 def Cfg.restoreOK (c : Cfg) : Bool := c.replayIsComplete && c.replayOrderPreserved
 
 def Cfg.good (c : Cfg) : Bool :=
-  c.replayIsComplete && c.loadIsPerEntry && c.replayOrderPreserved && c.loadReadsCommitted && c.saveOnEveryEnding
+  c.replayIsComplete && c.loadIsPerEntry && c.replayOrderPreserved && c.loadReadsCommitted && c.saveOnEveryEnding && c.savedEqualsLive
 
 /-! wave 4: `_replay_session` replays `settings_log` in dictionary order, so it relies on the adapter round trip
 (write + read) keeping the order of the log: decode ∘ encode preserves the order of the steps.  A writer that
@@ -402,6 +403,41 @@ def stepCE (c : Cfg) (d : Dyn σ ρ) (s : Server σ) (oe : Op × Ending) : Serve
 def runCE (c : Cfg) (d : Dyn σ ρ) : Server σ → List (Op × Ending) → List (Resp ρ)
   | _, [] => []
   | s, oe :: oes => (stepCE c d s oe).2 :: runCE c d (stepCE c d s oe).1 oes
+
+/-! ### wave 9: WHAT is externalised after a stepping request — several sessions on one instance
+
+`_get_instance_state` hands the adapter a deep copy of the live `session_state`.  `persist` above says so for one
+session; an instance can have several sessions one after the other (`begin-session` again, with or without
+`end-session`): each starts with empty logs and logs the same step keys again.  Mechanism fact `savedEqualsLive`: the
+externalised logs are the live logs, entry by entry.  The defective variant keeps the copy handed out last and only adds
+the entries whose step key is not in it yet ("an entry is not touched again once it is written"): the entries of the
+previous session with the same keys stay, the new session's are never externalised — a new server replays the OLD
+settings. -/
+
+abbrev SLog := List (Time × Settings)
+
+def hasKey (t : Time) (l : SLog) : Bool := l.any (·.1 == t)
+
+def mergeSnapshot (snap live : SLog) : SLog := snap ++ live.filter fun e => !hasKey e.1 snap
+
+def externalise (c : Cfg) (snap : Option SLog) (live : SLog) : SLog :=
+  if c.savedEqualsLive then live
+  else match snap with
+    | none => live
+    | some s => mergeSnapshot s live
+
+/-- the steps of one session: after each, (live log, externalised log); returns the copy handed out last as well -/
+def stepsRun (c : Cfg) : Option SLog → SLog → SLog → List (SLog × SLog) × Option SLog
+  | snap, _, [] => ([], snap)
+  | snap, live, e :: r =>
+    let ext := externalise c snap (live ++ [e])
+    let rest := stepsRun c (some ext) (live ++ [e]) r
+    ((live ++ [e], ext) :: rest.1, rest.2)
+
+/-- consecutive sessions on ONE instance (each: the steps it logs) -/
+def sessionsRun (c : Cfg) : Option SLog → List SLog → List (SLog × SLog)
+  | _, [] => []
+  | snap, s :: ss => (stepsRun c snap [] s).1 ++ sessionsRun c (stepsRun c snap [] s).2 ss
 
 /-! ### wave 3: `ExternalStateAdapter.load_state` over the directory listing
 
